@@ -151,7 +151,7 @@ func (m *monC03) OnObs(w *World, o *Obs) {
 	}
 	switch o.Kind {
 	case "tx.reject":
-		if strings.HasPrefix(o.Tx.Kind, "claim-") || o.Tx.Kind == "spend" {
+		if isSwapSpendKind(o.Tx.Kind) {
 			switch {
 			case strings.Contains(o.Tx.Err, "mandatory-script-verify-flag-failed"), strings.Contains(o.Tx.Err, "decode"):
 				w.Violate("C03", "invalid-spend:"+o.Tx.Chain+":"+firstWords(o.Tx.Err, 6), "node %d built a %s spend that consensus rejects: %s", o.Node, o.Tx.Chain, o.Tx.Err)
@@ -160,7 +160,7 @@ func (m *monC03) OnObs(w *World, o *Obs) {
 			}
 		}
 	case "tx.broadcast":
-		isSpend := strings.HasPrefix(o.Tx.Kind, "claim-") || o.Tx.Kind == "spend"
+		isSpend := isSwapSpendKind(o.Tx.Kind)
 		if !isSpend {
 			return
 		}
@@ -296,4 +296,11 @@ func (m *monC03) checkLiquid(w *World, n *Node, so *SwapOutput, o *Obs) {
 	if fee > 50000 {
 		w.Violate("C03", "fee-excessive:lbtc", "node %d: spend %.12s pays fee %d", n.ID, o.Tx.TxID, fee)
 	}
+}
+
+// isSwapSpendKind: transactions a node builds to spend a swap output. At tiers 2 and 3 the
+// adapters hand exactly these (and nothing else) to PublishTransaction without a funding /
+// to bitcoind's sendrawtransaction, whether or not they turn out to spend a swap output.
+func isSwapSpendKind(kind string) bool {
+	return strings.HasPrefix(kind, "claim-") || kind == "spend" || kind == "cln-sendraw" || kind == "lnd-publish"
 }
